@@ -1,0 +1,13 @@
+//go:build verif
+
+package workers
+
+// VerifJobCounter exposes the pending-request counter of the trigger pool to the external
+// verification harness, so that its real implementation can be driven concurrently.
+type VerifJobCounter struct {
+	c jobCounter
+}
+
+func (v *VerifJobCounter) Set(n int) int64 { return v.c.set(n) }
+func (v *VerifJobCounter) None() bool      { return v.c.none() }
+func (v *VerifJobCounter) Take() bool      { return v.c.take() }
